@@ -269,7 +269,7 @@ static void ser_segd(flds_t *F, int bh, const char *flag, const char *pfx, const
 	ser_pc(F, bh, flag, pfx, &d->power_consumption);
 	fadd(F, bh, flag, pfx, "dcc_address_cnt", "%zu", d->dcc_address_cnt);
 	if (bh) { fadd(F, 0, NULL, pfx, "dcc_addresses", "ptr:%s", pcls(d->dcc_addresses)); return; }    /* the free function frees it whatever the flag says: always meaningful */
-	if (!d->dcc_addresses) { fadd(F, 0, NULL, pfx, "dcc_addresses", "(null)"); return; }
+	if (!d->dcc_addresses) { if (d->dcc_address_cnt) fadd(F, 0, NULL, pfx, "dcc_addresses", "(null)"); return; }      /* NULL with count 0 is an empty list like any other */
 	for (size_t k = 0; k < d->dcc_address_cnt && k < 16; k++) { char nm[48]; snprintf(nm, sizeof nm, "dcc_addresses[%zu]", k);
 		fadd(F, 0, NULL, pfx, nm, "%02x%02x/type%u", d->dcc_addresses[k].addrh, d->dcc_addresses[k].addrl, d->dcc_addresses[k].type); }
 }
@@ -287,7 +287,7 @@ static void ser_traind(flds_t *F, int bh, const char *flag, const char *pfx, con
 	fadd(F, bh, flag, pfx, "ack", "%d", (int) d->ack); fadd(F, bh, flag, pfx, "detected_kmh_speed", "%d", d->detected_kmh_speed);
 	fadd(F, bh, flag, pfx, "peripheral_cnt", "%zu", d->peripheral_cnt);
 	if (bh) fadd(F, 0, NULL, pfx, "peripherals", "ptr:%s", pcls(d->peripherals));                      /* consumed by the free function */
-	else if (!d->peripherals) fadd(F, 0, NULL, pfx, "peripherals", "(null)");
+	else if (!d->peripherals) { if (d->peripheral_cnt) fadd(F, 0, NULL, pfx, "peripherals", "(null)"); }
 	else for (size_t k = 0; k < d->peripheral_cnt && k < 16; k++) { char nm[48]; snprintf(nm, sizeof nm, "peripherals[%zu]", k);
 		fadd(F, 0, NULL, pfx, nm, "%.40s=%u", d->peripherals[k].id ? d->peripherals[k].id : "(null)", d->peripherals[k].state); }
 	ser_dec(F, bh, flag, pfx, &d->decoder_state);
@@ -434,8 +434,9 @@ static void apply_set(int k) {
 		bidib_set_train_peripheral("train1", "horn", 1, "master"); settle();
 	} else if (k == 1) {      /* S1 -> S2 */
 		UP(B_MASTER, MSG_BM_FREE, 0); UP(B_MASTER, MSG_BM_MULTIPLE, 0, 16, 0x02, 0x02);
-		UP(B_MASTER, MSG_BM_ADDRESS, 1, 0x23, 0x81); UP(B_MASTER, MSG_BM_ADDRESS, 9, 0x23, 0x81, 0x99, 0x09);
+		UP(B_MASTER, MSG_BM_ADDRESS, 1, 0x23, 0x81, 0x23, 0x81); UP(B_MASTER, MSG_BM_ADDRESS, 9, 0x23, 0x81, 0x99, 0x09);     /* seg2 lists train1 twice (locomotive and a function decoder with the same address): unusual, but a state the getters must render well-formed */
 		UP(B_OC1, MSG_BM_OCC, 0); UP(B_OC1, MSG_BM_ADDRESS, 0, 0x02, 0x03);
+		UP(B_MASTER, MSG_BM_ADDRESS, 0, 0x02, 0x83);       /* an address report for a segment that was never reported occupied (the reports overtook each other / the occupancy report was lost) */
 		UP(B_MASTER, MSG_BM_CURRENT, 1, 0xFE); UP(B_MASTER, MSG_BM_CURRENT, 0, 0xFF); UP(B_MASTER, MSG_BM_CURRENT, 9, 0x50);
 		UP(B_MASTER, MSG_BM_CONFIDENCE, 0, 1, 0); UP(B_OC1, MSG_BM_CONFIDENCE, 0, 0, 1);
 		UP(B_OC1, MSG_ACCESSORY_STATE, 2, 1, 2, 0x00, 0); UP(B_OC1, MSG_ACCESSORY_STATE, 3, 0, 2, 0x02, 0); UP(B_LC1, MSG_ACCESSORY_STATE, 0x10, 2, 2, 0x01, 0x83);
